@@ -58,7 +58,7 @@ FLOORS = {
     'quick': {
         'definitions': 100, 'rules_converted': 400, 'rules_two_vars_and_repeated_var': 50, 'rules_nonlinear_lhs': 20,
         'traces_matching_accepted': 150, 'traces_len_ge3_accepted': 50, 'traces_len0': 5, 'traces_mismatch_refused': 50,
-        'mismatch_refused:subst': 10, 'mismatch_refused:rule': 10, 'mismatch_refused:skip': 5, 'mismatch_refused:init': 5,
+        'mismatch_refused:subst': 10, 'mismatch_refused:rule': 10, 'mismatch_refused:skip': 5, 'mismatch_refused:init': 5, 'mismatch_refused:unbound': 5,
         'refused_step_state_checked': 50, 'steps_claim_compared': 500, 'commutation_checked': 300,
         'substitutions_converted': 300, 'parametric_symbols_used': 20, 'cell_symbols_used': 20,
         'modules_serialised': 300, 'modules_accepted_by_checker': 300, 'modules_accepted_by_o2': 300,
@@ -314,6 +314,11 @@ class CaseRunner:
                         self.violation('converted_substitution_value_differs', f'value for phi{k}: expected {P(exp[k])[:200]}, got {tb.pretty(got[k])[:200]}',
                                        tr, rule=r.axiom.text, sigma=gk.show_sigma(st.sigma))
                         break
+        if set(kr.variables(r.rewrite)) - set(st.sigma):
+            # a deliberately partial substitution (mismatch mode 'unbound'): the commutation law speaks about ground substitutions
+            ctx.count('partial_substitutions_converted')
+            cache[key] = subs
+            return subs
         # commutation: instantiate(convert(rule), convert(sigma)) == convert(sigma(rule)) == reference
         try:
             ax = sem.get_axiom(r.ordinal)
